@@ -14,7 +14,7 @@ func init() { rules["C11"] = ruleC11 }
 // sharedOwners: struct types whose objects are reachable from more than one goroutine.
 var sharedOwners = map[string]bool{
 	"sequenceNumber": true,
-	"upf": true, "UP4": true, "bess": true, "PFCPNode": true, "PFCPConn": true, "PFCPIface": true,
+	"upf":            true, "UP4": true, "bess": true, "PFCPNode": true, "PFCPConn": true, "PFCPIface": true,
 	"IPPool": true, "FTEIDGenerator": true, "downlinkDataNotifier": true, "P4rtClient": true,
 	"P4rtTranslator": true, "InMemoryStore": true, "ConfigHandler": true, "Service": true,
 }
